@@ -854,6 +854,9 @@ impl Axecutor {
         // envp[0] = NULL
         stack_layout.push(0);
 
+        // Size of the frame, including up to 32 bytes that aligning the stack pointer can cost
+        let frame_size = (stack_layout.len() as u64) * 8 + 32;
+
         let mut stack_start: u64 = 0x1000;
         loop {
             if stack_start >= 0x7fff_ffff_ffff_ffff {
@@ -863,11 +866,7 @@ impl Axecutor {
             }
 
             if self
-                .mem_init_zero_named(
-                    stack_start,
-                    length + (stack_layout.len() as u64) * 8,
-                    "Stack".to_string(),
-                )
+                .mem_init_zero_named(stack_start, length + frame_size, "Stack".to_string())
                 .is_ok()
             {
                 break;
@@ -877,7 +876,10 @@ impl Axecutor {
 
         // TODO: auxiliary vector
         // Make sure the stack is aligned to 16 bytes
-        let mut stack_top = (stack_start + length - 16) & !0xf;
+        // The area is `length` bytes of free stack plus the frame itself (plus room for the
+        // alignment adjustments below); the frame goes to the top of the area so that the
+        // requested length stays free below it
+        let mut stack_top = (stack_start + length + frame_size - 16) & !0xf;
         if stack_layout.len() % 2 == 1 {
             // However, if we push an uneven amount of 64 bit values, we need to adjust
             stack_top -= 8;
